@@ -33,12 +33,20 @@ type faultDB struct {
 	mu sync.Mutex
 	// streams as the model pops them: one bit per ExecContext of a body / of a RestoreFunc
 	fs, rs     []bool
-	body, rest int // calls seen so far
+	body, rest int    // calls seen so far
+	qs         []bool // one bit per read of the state inside an open session (its tablesQuery fails)
+	reads      int
+	// open: Snapshot's inspection succeeded (its sqlite_master query was seen) and no statement of a
+	// RestoreFunc has been issued since. readOpen: its value when the last inspection of the
+	// tables began (tablesQuery) -- a failing read is a read *of the session* (after its
+	// statements) if the session was open then, otherwise it is Snapshot's own InspectRealm
+	open, readOpen bool
 }
 
 const (
 	faultBody    = "VERIF-FAULT-BODY"
 	faultRestore = "VERIF-FAULT-RESTORE"
+	faultRead    = "VERIF-FAULT-READ"
 )
 
 func isRestoreStmt(q string) bool {
@@ -53,6 +61,7 @@ func (f *faultDB) ExecContext(ctx context.Context, q string, args ...any) (sql.R
 	if restore {
 		fail = f.rest < len(f.rs) && f.rs[f.rest]
 		f.rest++
+		f.open = false
 	} else {
 		fail = f.body < len(f.fs) && f.fs[f.body]
 		f.body++
@@ -68,6 +77,22 @@ func (f *faultDB) ExecContext(ctx context.Context, q string, args ...any) (sql.R
 }
 
 func (f *faultDB) QueryContext(ctx context.Context, q string, args ...any) (*sql.Rows, error) {
+	f.mu.Lock()
+	switch {
+	case strings.Contains(q, "FROM sqlite_master WHERE `tbl_name` NOT LIKE"): // Driver.Snapshot's second check
+		f.open = true
+	case strings.Contains(q, "JOIN pragma_table_list(sqlite_master.name)"): // tablesQuery: an inspection begins
+		f.readOpen = f.open
+		if f.open { // a read of the session (Snapshot's own inspection is no op of a body)
+			fail := f.reads < len(f.qs) && f.qs[f.reads]
+			f.reads++
+			if fail {
+				f.mu.Unlock()
+				return nil, errors.New(faultRead)
+			}
+		}
+	}
+	f.mu.Unlock()
 	return f.db.QueryContext(ctx, q, args...)
 }
 
@@ -89,8 +114,11 @@ func (d noAddSchema) ApplyChanges(ctx context.Context, changes []schema.Change, 
 func hclSchema(ts []htable) *schema.Schema {
 	s := schema.New("main")
 	for _, t := range ts {
-		tb := schema.NewTable(t.name).
-			AddColumns(schema.NewIntColumn("id", "integer"), schema.NewNullStringColumn("v", "text"))
+		v := schema.NewNullStringColumn("v", "text")
+		if t.unins {
+			v = schema.NewNullStringColumn("v", unparsableType)
+		}
+		tb := schema.NewTable(t.name).AddColumns(schema.NewIntColumn("id", "integer"), v)
 		tb.SetPrimaryKey(schema.NewPrimaryKey(tb.Columns[0]))
 		for _, i := range t.idx {
 			tb.AddIndexes(schema.NewIndex(i.name).AddColumns(tb.Columns[1]))
@@ -161,7 +189,12 @@ func readSource(ctx context.Context, c *tcase, drv migrate.Driver, s source) (mi
 		if err != nil {
 			return nil, err
 		}
-		r, err := ex.Replay(ctx, migrate.RealmConn(drv, nil))
+		var sr migrate.StateReader = migrate.RealmConn(drv, nil)
+		if c.excl {
+			// as stateReaderSQL does for a dev URL bound to a schema (SQLite: always "main")
+			sr = migrate.SchemaConn(drv, "", &schema.InspectOptions{Exclude: []string{"["}})
+		}
+		r, err := ex.Replay(ctx, sr)
 		if err != nil && !errors.Is(err, migrate.ErrNoPendingFiles) {
 			return nil, err
 		}
@@ -206,7 +239,7 @@ func runAPI(c *tcase, tmpRoot string) (r result) {
 		r.err = err
 		return
 	}
-	fdb := &faultDB{db: db, fs: c.fs, rs: c.rs}
+	fdb := &faultDB{db: db, fs: c.fs, rs: c.rs, qs: c.qs}
 	drv, err := sqlite.Open(fdb)
 	if err != nil {
 		r.err = err
@@ -293,7 +326,16 @@ func runAPI(c *tcase, tmpRoot string) (r result) {
 		r.outcome = "refused"
 	default:
 		r.output = nerr.Error()
-		if ms := markerRe.FindAllStringSubmatch(r.output, -1); len(ms) > 0 {
+		r.restoreReported = strings.Contains(r.output, faultRestore)
+		if inspectErrRe.MatchString(r.output) || strings.Contains(r.output, faultRead) {
+			// no statement failed, a read of the state did (checked before the markers: the
+			// inspector quotes the CREATE statement, comment included)
+			if fdb.readOpen {
+				r.outcome = "ifail"
+			} else {
+				r.outcome = "snapfail"
+			}
+		} else if ms := markerRe.FindAllStringSubmatch(r.output, -1); len(ms) > 0 {
 			r.outcome = "fail:" + ms[0][1]
 		} else if errors.As(nerr, &ap) {
 			// a statement of the normalisation plan: map the plan position to its marker
@@ -339,7 +381,7 @@ func runAPI(c *tcase, tmpRoot string) (r result) {
 	r.startObjs, r.startUser = objs, user
 	r.obs = fmt.Sprintf("out=%s same=%d empty=%d dirw=%d", r.outcome, b01(r.same), b01(r.empty), b01(r.dirw))
 	// for the generator: how many calls a fault-free run makes
-	r.bodyCalls, r.restCalls = fdb.body, fdb.rest
+	r.bodyCalls, r.restCalls, r.readCalls = fdb.body, fdb.rest, fdb.reads
 	return
 }
 
@@ -359,7 +401,7 @@ func mkTables(spec [][]string, m0 int) []htable {
 	var ts []htable
 	for _, s := range spec {
 		m++
-		t := htable{m: m, name: s[0]}
+		t := htable{m: m, name: strings.TrimSuffix(s[0], "!"), unins: strings.HasSuffix(s[0], "!")}
 		for _, i := range s[1:] {
 			m++
 			t.idx = append(t.idx, hidx{m, i})
@@ -393,14 +435,18 @@ func genRunAPI(tier, tmpRoot string) ([]*tcase, []result) {
 	}
 	empty := startByName("empty")
 	specs := [][][]string{
-		{{"t0", "i0"}, {"t1", "i1", "i2"}},             // succeeds
-		{{"t0"}},                                       // one table
-		{},                                             // nothing to create
-		{{"t0", "i0"}, {"t1", "i0"}},                   // 2nd CREATE INDEX i0 fails (position 3)
+		{{"t0", "i0"}, {"t1", "i1", "i2"}}, // succeeds
+		{{"t0"}},                           // one table
+		{},                                 // nothing to create
+		{{"t0", "i0"}, {"t1", "i0"}},       // 2nd CREATE INDEX i0 fails (position 3)
 		{{"t0", "i0", "i1"}, {"t1", "i2", "i1", "i3"}}, // fails at position 5
 		{{"t0", "i0"}, {"t0", "i1"}},                   // 2nd CREATE TABLE t0 fails (position 2)
 		{{"t0", "i0"}, {"t1"}, {"t2", "t1"}},           // index named like a table fails (position 4)
 		{{"t0", "t0"}},                                 // index named like its own table (position 1)
+		// "!": a column type SQLite accepts and the inspector cannot parse -> the inspection after ApplyChanges fails
+		{{"t0!", "i0"}, {"t1", "i1"}},
+		{{"t0", "i0"}, {"t1!"}},
+		{{"t0!", "i0"}, {"t1", "i0"}}, // ... unless a statement fails first (position 3)
 	}
 	// the bases: one per command shape; each is then run with a fault at every call
 	var bases []apiBase
@@ -487,11 +533,115 @@ func genRunAPI(tier, tmpRoot string) ([]*tcase, []result) {
 			return c
 		}},
 	)
+	// the exit "all statements succeeded, the read afterwards failed" for every command shape
+	r3From := len(bases) // (quick: these bases meet a selection of the start states, see 1.)
+	setStmt := func(sc []mstmt, k int, st stmt) { sc[k].s = st }
+	for _, norm := range []string{"r", "s"} {
+		norm := norm
+		bases = append(bases,
+			apiBase{"diff-hcl-U-" + norm, func() *tcase {
+				m := 0
+				c := (&tcase{norm: norm, cmd: "diff", changes: true}).setStart(empty)
+				c.dir = baseDir(&m, "")
+				c.to = source{kind: "hcl", hcl: mkTables([][]string{{"t0", "i0"}, {"tz!", "iz"}}, 900)}
+				return c
+			}},
+			apiBase{"sdiff-hcl-hcl-Ufrom-" + norm, func() *tcase {
+				c := (&tcase{norm: norm, cmd: "sdiff"}).setStart(empty)
+				c.from = source{kind: "hcl", hcl: mkTables([][]string{{"t0!", "i0"}}, 800)}
+				c.to = source{kind: "hcl", hcl: mkTables([][]string{{"t0", "i0"}, {"t1"}}, 900)}
+				return c
+			}},
+			apiBase{"sdiff-hcl-hcl-Uto-" + norm, func() *tcase {
+				c := (&tcase{norm: norm, cmd: "sdiff"}).setStart(empty)
+				c.from = source{kind: "hcl", hcl: mkTables([][]string{{"t0", "i0"}}, 800)}
+				c.to = source{kind: "hcl", hcl: mkTables([][]string{{"t0", "i0"}, {"t1!"}}, 900)}
+				return c
+			}},
+			apiBase{"sinspect-hcl-U-" + norm, func() *tcase {
+				c := (&tcase{norm: norm, cmd: "sinspect"}).setStart(empty)
+				c.from = source{kind: "hcl", hcl: mkTables([][]string{{"t0", "i0"}, {"t1!", "i1"}}, 800)}
+				return c
+			}},
+		)
+	}
+	for _, shape := range []string{"", "ck"} {
+		shape := shape
+		bases = append(bases,
+			apiBase{"validate-U-" + shape, func() *tcase {
+				m := 0
+				c := (&tcase{norm: "0", cmd: "validate"}).setStart(empty)
+				c.dir = baseDir(&m, shape)
+				last := c.dir[len(c.dir)-1].stmts
+				setStmt(last, 0, stmt{"ctu", last[0].s.a, "gen"}) // t1 in both shapes
+				return c
+			}},
+			apiBase{"checkpoint-U-" + shape, func() *tcase {
+				m := 0
+				c := (&tcase{norm: "0", cmd: "checkpoint", changes: true}).setStart(empty)
+				c.dir = baseDir(&m, shape)
+				last := c.dir[len(c.dir)-1].stmts
+				setStmt(last, len(last)-1, stmt{"ciu", "iu", "t1"})
+				return c
+			}},
+		)
+	}
+	bases = append(bases,
+		apiBase{"diff-sql-Uto", func() *tcase {
+			m := 0
+			c := (&tcase{norm: "0", cmd: "diff", changes: true}).setStart(empty)
+			c.dir = baseDir(&m, "")
+			c.to = mkSource("sql", &m, "tz")
+			setStmt(c.to.sql, 2, stmt{"ctu", "tz", ""})
+			return c
+		}},
+		apiBase{"diff-sql-Udir", func() *tcase {
+			m := 0
+			c := (&tcase{norm: "0", cmd: "diff", changes: true}).setStart(empty)
+			c.dir = baseDir(&m, "")
+			setStmt(c.dir[0].stmts, 1, stmt{"ciu", "i0", "t0"})
+			c.to = mkSource("sql", &m, "tz")
+			return c
+		}},
+		apiBase{"sdiff-sdir-dir-U", func() *tcase {
+			m := 0
+			c := (&tcase{norm: "0", cmd: "sdiff"}).setStart(empty)
+			c.from = mkSource("sdir", &m, "tx")
+			c.to = mkSource("dir", &m, "tz")
+			last := c.to.dir[len(c.to.dir)-1].stmts
+			setStmt(last, 0, stmt{"ctu", "tz", ""})
+			return c
+		}},
+		apiBase{"sapply-sql-excl", func() *tcase {
+			m := 0
+			c := (&tcase{norm: "0", cmd: "sapply", excl: true}).setStart(empty)
+			c.to = mkSource("sql", &m, "tz")
+			return c
+		}},
+		apiBase{"sinspect-sdir-excl", func() *tcase {
+			m := 0
+			c := (&tcase{norm: "0", cmd: "sinspect", excl: true}).setStart(empty)
+			c.from = mkSource("sdir", &m, "tx")
+			return c
+		}},
+		apiBase{"sdiff-sql-sql-excl", func() *tcase {
+			m := 0
+			c := (&tcase{norm: "0", cmd: "sdiff", excl: true}).setStart(empty)
+			c.from = mkSource("sql", &m, "tx")
+			c.to = mkSource("sql", &m, "tz")
+			return c
+		}},
+	)
 	// 1. every base x every start state, no injected fault (quick: the shapes that open a
 	//    normalisation session, the others are covered by the cli stage)
-	for _, b := range bases {
+	r3Starts := map[string]bool{"absent": true, "empty": true, "bk-seq": true, "bk-seq-stat": true, "bk-wasm": true, "bk-wasm-idx": true,
+		"tables": true, "combo-V": true, "combo-H": true, "combo-GX": true, "unread-table": true, "unread-index": true, "unread-gen-view": true, "unread-hidden": true}
+	for bi, b := range bases {
 		for _, st := range starts {
 			if tier != "thorough" && !strings.Contains(b.name, "hcl") && strings.HasPrefix(st.name, "combo-") && len(st.name) > len("combo-X") {
+				continue
+			}
+			if tier != "thorough" && bi >= r3From && !r3Starts[st.name] {
 				continue
 			}
 			add(b.mk().setStart(st), "grid/"+b.name)
@@ -524,6 +674,16 @@ func genRunAPI(tier, tmpRoot string) ([]*tcase, []result) {
 			c := add(b.mk().setStart(st()), "fault-restore/"+b.name)
 			c.rs = upto(q)
 		}
+		// every read of the state inside a session hit by a fault (lost connection, I/O error between
+		// the last statement and the inspection), alone and with a failing statement of the restore
+		for q := 0; q < probes[i].readCalls; q++ {
+			c := add(b.mk().setStart(st()), "fault-read/"+b.name)
+			c.qs = upto(q)
+			for _, rs := range [][]bool{{true}, {false, true}, {false, false, false, true}} {
+				c := add(b.mk().setStart(st()), "fault-read+restore/"+b.name)
+				c.qs, c.rs = upto(q), rs
+			}
+		}
 	}
 	// 3. seeded random normalisation specs (as in round 1) with random fault positions
 	r := rng.FromEnv(0xC14A)
@@ -535,7 +695,7 @@ func genRunAPI(tier, tmpRoot string) ([]*tcase, []result) {
 		var sp [][]string
 		nt := 1 + r.Intn(3)
 		for t := 0; t < nt; t++ {
-			row := []string{rng.Pick(r, []string{"t0", "t1", "t2", "t3"})}
+			row := []string{rng.Pick(r, []string{"t0", "t1", "t2", "t3", "t1!", "t2!"})}
 			ni := r.Intn(3)
 			for k := 0; k < ni; k++ {
 				row = append(row, rng.Pick(r, []string{"i0", "i1", "i2", "i3", "t1"}))
@@ -563,6 +723,9 @@ func genRunAPI(tier, tmpRoot string) ([]*tcase, []result) {
 		}
 		if r.Chance(1, 4) {
 			c.rs = upto(r.Intn(6))
+		}
+		if r.Chance(1, 4) {
+			c.qs = upto(r.Intn(3))
 		}
 		add(c, "random/"+c.cmd)
 	}
